@@ -61,7 +61,7 @@ class model(base.model):
                     nflux[i][c] = pL[i][c]**2/2
                 elif vhalf < 0:
                     nflux[i][c] = pR[i][c]**2/2
-                elif pL[i][c] > 0: # stationary shock uL=-uR>0
+                else: # uL=-uR: both states carry the same flux (stationary shock or sonic expansion)
                     nflux[i][c] = pL[i][c]**2/2
         return nflux
 
